@@ -78,3 +78,149 @@ def compare_value_arrays(Vimpl, Vmodel, n_periods, tol=None):
         if any(y == "-inf" for y in b["data"]) or undef:
             later_finite = False
     return diffs, stats
+
+
+# ======================================================================================
+# simulation
+# ======================================================================================
+def init_impl(mj, init):
+    """harness initial states {state: [Fr...]} -> dict of jnp arrays (ints for discrete states)"""
+    I = impl()
+    G = dict((k, g) for k, g in mj["states"])
+    out = {}
+    for s, vals in init.items():
+        if G[s]["k"] == "disc":
+            out[s] = I.jnp.array([int(v) for v in vals])
+        else:
+            out[s] = I.jnp.array([float(v) for v in vals])
+    return out
+
+
+class ImplFns:
+    """solve / simulate functions of one specification (built once, reused across calls)"""
+
+    def __init__(self, mj, jit=True):
+        impl()
+        from lcm.entry_point import get_lcm_function
+
+        self.mj = mj
+        self.model = build_model(mj)
+        self.solve, self.template = get_lcm_function(self.model, targets="solve", jit=jit)
+        self.simulate, _ = get_lcm_function(self.model, targets="simulate", jit=jit)
+        self._sas = None
+        self.jit = jit
+
+    @property
+    def solve_and_simulate(self):
+        if self._sas is None:
+            from lcm.entry_point import get_lcm_function
+
+            self._sas, _ = get_lcm_function(self.model, targets="solve_and_simulate", jit=self.jit)
+        return self._sas
+
+
+def frame_rows(df, mj, n_agents):
+    """DataFrame -> rows[t][i] = {"value": float, "choices": {c: float}, "states": {s: float}, "_period": int}"""
+    import numpy as np
+
+    rows = []
+    T = mj["n_periods"]
+    cols = {c: np.asarray(df[c]) for c in df.columns}
+    for t in range(T):
+        per = []
+        for i in range(n_agents):
+            k = t * n_agents + i
+            per.append({
+                "value": float(cols["value"][k]),
+                "choices": {c: float(cols[c][k]) for c, _ in mj["choices"]},
+                "states": {s: float(cols[s][k]) for s, _ in mj["states"]},
+                "_period": int(cols["_period"][k]),
+            })
+        rows.append(per)
+    return rows
+
+
+def model_sim_spec(mj, P, t, Vnext, agents):
+    """agents = [{"states": {s: x}, "choices": {c: x}}] with float/Fraction values"""
+    req = {
+        "op": "sim_spec", "model": strip(mj), "params": params_json(P), "t": t,
+        "Vnext": None if Vnext is None else _ext_tensor_json(Vnext),
+        "agents": [{"states": [[s, fr(a["states"][s])] for s, _ in mj["states"]],
+                    "choices": [[c, fr(a["choices"][c])] for c, _ in mj["choices"]]} for a in agents],
+    }
+    return driver().call(req)
+
+
+def _ext_tensor_json(a):
+    import numpy as np
+
+    a = np.asarray(a)
+    flat = a.ravel() if a.shape else np.array([a[()]])
+    return {"shape": list(a.shape), "data": [fr(float(x)) for x in flat]}
+
+
+def check_simulation(mj, P, V, rows, init, tol=None):
+    """Evaluate the relations of C02 / C03 / C13(_period) on an implementation panel `rows` against the
+    Lean specification, step-wise (the model is fed the implementation's own period-t states).
+    Returns {"C02": [...], "C03": [...], "C13": [...], "stats": {...}} lists of violation dicts."""
+    out = {"C02": [], "C03": [], "C13": [], "stats": {"agent_periods": 0, "ties": 0, "undefined": 0, "stoch_draws": 0, "binding": 0, "offgrid_state": 0}}
+    T = mj["n_periods"]
+    n = len(rows[0])
+    snames = [s for s, _ in mj["states"]]
+    # period-0 states are the supplied initial states
+    for i in range(n):
+        for s in snames:
+            if Fr(rows[0][i]["states"][s]) != Fr(init[s][i]):
+                out["C03"].append({"clause": "period-0 states equal the initial states", "detail": f"agent {i} state {s}: frame {rows[0][i]['states'][s]}, supplied {init[s][i]}"})
+    for t in range(T):
+        Vnext = V[t + 1] if t + 1 < T else None
+        spec = model_sim_spec(mj, P, t, Vnext, rows[t])
+        for i, (row, sp) in enumerate(zip(rows[t], spec)):
+            out["stats"]["agent_periods"] += 1
+            if row["_period"] != t:
+                out["C13"].append({"clause": "_period equals t in row (t, i)", "detail": f"row ({t},{i}) has _period {row['_period']}"})
+            if sp["undefined"]:
+                out["stats"]["undefined"] += 1
+                continue
+            where = f"period {t} agent {i} states {row['states']} choices {row['choices']}"
+            if sp["n_optimal"] > 1:
+                out["stats"]["ties"] += 1
+            if sp["best"] == "-inf":
+                # no admissible choice: outside the supported class for simulation
+                out["stats"]["undefined"] += 1
+                continue
+            if not sp["on_grid"]:
+                out["C02"].append({"clause": "reported choices are grid values", "detail": where})
+            elif sp["adm"] is not True:
+                out["C02"].append({"clause": "reported choices pass all filters and constraints", "detail": where})
+            elif not _eq(sp["q"], sp["best"], tol):
+                out["C02"].append({"clause": "reported choices attain the maximum", "detail": f"{where}: objective at reported choice {sp['q']}, maximum {sp['best']}"})
+            if not same_number(row["value"], sp["best"], tol):
+                out["C02"].append({"clause": "reported value equals the maximum", "detail": f"{where}: value {fr(row['value'])}, maximum {sp['best']}"})
+            if t + 1 < T:
+                nrow = rows[t + 1][i]
+                for s, v in sp["next_det"].items():
+                    if not same_number(nrow["states"][s], v, tol):
+                        out["C03"].append({"clause": "next state equals the transition function", "detail": f"{where}: state {s} in period {t + 1} is {fr(nrow['states'][s])}, transition gives {v}"})
+                for s, prow in sp["rows"].items():
+                    out["stats"]["stoch_draws"] += 1
+                    lab = nrow["states"][s]
+                    if lab != int(lab) or not (0 <= int(lab) < len(prow)):
+                        out["C03"].append({"clause": "stochastic next state is a grid label", "detail": f"{where}: state {s} in period {t + 1} is {lab}"})
+                    elif Fr(prow[int(lab)]) <= 0:
+                        out["C03"].append({"clause": "drawn label has positive probability", "detail": f"{where}: state {s} label {int(lab)} has probability {prow[int(lab)]} in row {prow}"})
+    return out
+
+
+def _eq(a, b, tol):
+    if a is None or b is None:
+        return False
+    if a in ("-inf",) or b in ("-inf",):
+        return a == b
+    if tol is None:
+        return Fr(a) == Fr(b)
+    return abs(float(Fr(a)) - float(Fr(b))) <= tol * max(1.0, abs(float(Fr(b))))
+
+
+def model_layout(mj):
+    return driver().call({"op": "layout", "model": strip(mj)})
